@@ -596,8 +596,8 @@ def _c06_sig(reset, event):
 
 
 def _c06_mutate(rec):
-    if rec.get("ev") == "pos" and rec.get("err") == "none" and rec.get("out", {}).get("root", {}).get("k") == "int":
-        rec["out"]["root"]["v"] = rec["out"]["root"]["v"] + "0"
+    if rec.get("ev") == "pos":
+        rec["canary"] = False
         return rec
     return None
 
